@@ -358,7 +358,9 @@ pub fn judge_c17(rec: &mut Recorder, c: &HistCase, ex: Exec, _hello: &Value) -> 
         // a block whose release failed is still executable memory: whatever scope exit wrote into
         // it after the installation is a code modification like any other
         for (addr, now) in &l.unreleased {
-            if let Some((_, was)) = l.steps.iter().flat_map(|s| s.tramps.iter()).find(|t| t.0 == *addr) {
+            // (compared with the block's content right before scope exit: later installations may
+            // legitimately have written - and flushed - more into a block that several of them share)
+            if let Some((_, was)) = l.held_before_exit.iter().find(|t| t.0 == *addr) {
                 rec.class("trampoline-that-could-not-be-released");
                 for i in 0..now.len().min(was.len()) {
                     if now[i] != was[i] {
